@@ -157,7 +157,55 @@ def run(tier):
     C.sample({"graph": {n: G.src(n, d, "k") for n, d in vecs[k]["g"].items()}, "accepted": vecs[k]["ok"], "fails": vecs[k]["fails"]})
     C.assumptions += ["which applicable error class is reported is not demanded", "termination is observed with a 50 minute wall-clock limit per batch of jobs and process-exit monitoring",
                       "`include` of a template that extends another one: text not compared"]
+    late_prefixes(C)
     return C.finish()
+
+
+def late_prefixes(C):
+    """set_fallback_prefixes AFTER templates were added: the call may refuse; if it answers Ok the instance is the one a fresh
+    instance with the new prefixes and the same templates would be -- in particular not one holding an extends / include
+    cycle or a dangling target -- and if it refuses, nothing changed.  Rendering comes back in every case."""
+    import itertools
+    SETS = {"include-cycle": [["a.html", "A{% include 'p.html' %}"], ["x/p.html", "XP"], ["y/p.html", "YP{% include 'a.html' %}"]],
+            "extends-cycle": [["a.html", "{% extends 'p.html' %}"], ["x/p.html", "XP{% block b %}{% endblock %}"], ["y/p.html", "{% extends 'a.html' %}"]],
+            "dangling": [["a.html", "A{% include 'q.html' %}"], ["x/q.html", "XQ"]],
+            "dangling-parent": [["a.html", "{% extends 'q.html' %}"], ["x/q.html", "XQ"]],
+            "benign": [["a.html", "A{% include 'p.html' %}"], ["x/p.html", "XP"], ["y/p.html", "YP"]],
+            "component-provider": [["a.html", "A{{<k/>}}"], ["x/c.html", "{% component k() %}XK{% endcomponent k %}"], ["y/c.html", "{% component k() %}YK{% endcomponent k %}"]]}
+    news = [[], ["x/"], ["y/"], ["x/", "y/"], ["y/", "x/"]]
+    jobs, meta = [], []
+    for sname, tpls in SETS.items():
+        names = [n for n, _ in tpls]
+        obs = [{"op": "render", "name": n} for n in names] + [{"op": "names"}]
+        for order in (tpls, list(reversed(tpls))):
+            for new in news:
+                jobs.append({"cfg": {"prefixes": ["x/", "y/"]}, "steps": [{"op": "add", "tpls": order}] + obs + [{"op": "prefixes", "list": new}] + obs})
+                jobs.append({"cfg": {"prefixes": new}, "steps": [{"op": "add", "tpls": order}] + obs})
+                meta.append((sname, new, len(obs)))
+    res = vp.run_jobs(jobs, tag="c11-late-prefixes", timeout=900, may_abort=True)
+    strip = lambda rs: [(bool(x.get("ok")), x.get("out"), x.get("names")) for x in rs]
+    for k, (sname, new, nobs) in enumerate(meta):
+        live, fresh = res[2 * k], res[2 * k + 1]
+        job = jobs[2 * k]
+        C.count()
+        C.nontrivial(["late-prefixes", sname, new, k % 2])
+        key = {"kind": "late-prefixes", "set": sname, "new": new}
+        if any(x.get("panic") or x.get("abort") for x in live):
+            C.violation(dict(key, kind="late-prefixes-abort"), "changing the fallback prefixes of %s to %s and rendering killed the process / panicked: %s" % (
+                sname, new, [x.get("msg") or x.get("rc") for x in live if x.get("panic") or x.get("abort")][:1]), {"job": job})
+            continue
+        if not live[0].get("ok"):
+            C.violation(dict(key, kind="late-prefixes-setup"), "the initial set %s is refused: %s" % (sname, (live[0].get("msg") or "")[:120]), {"job": job})
+            continue
+        before, call, after = strip(live[1:1 + nobs]), live[1 + nobs], strip(live[2 + nobs:])
+        if not call.get("ok"):
+            if after != before:
+                C.violation(dict(key, kind="late-prefixes-refused-changed"), "set_fallback_prefixes(%s) on %s refused but the instance changed: %s -> %s" % (new, sname, before, after), {"job": job})
+        elif not fresh[0].get("ok"):
+            C.violation(dict(key, kind="late-prefixes-accepted"), "set_fallback_prefixes(%s) on %s answers Ok, but a fresh instance with these prefixes refuses the same templates (%s): the instance now holds a set that is not acceptable" % (
+                new, sname, (fresh[0].get("msg") or fresh[0].get("disp") or "")[:120]), {"job": job, "after": after})
+        elif after != strip(fresh[1:]):
+            C.violation(dict(key, kind="late-prefixes-differs"), "set_fallback_prefixes(%s) on %s answers Ok, but the instance differs from a fresh one with these prefixes: %s vs %s" % (new, sname, after, strip(fresh[1:])), {"job": job})
 
 
 def replay(path):
